@@ -762,6 +762,36 @@ def r01i(repo, chk):
                 return None
         return None
 
+    # the result register is written by the first instruction while later ones still read the index: it must not BE the index
+    # (get_intermediate_symbol hands out the target of an enclosing assignment, 'i = [..][i]')
+    ordered = sorted([s for s in sites if s.opcodes is not TOP], key=lambda s: (s.call.lineno, s.call.col_offset))
+    hazard = None
+    for k, s in enumerate(ordered):
+        if s.has_output:
+            out = norm(s.output_expr)
+            later = [t for t in ordered[k + 1:] if any(isinstance(x, ast.Name) and x.id == index_name for e in t.input_exprs for x in ast.walk(e))]
+            if later and out != index_name:
+                ids = live_ids(cfg, s.call)
+                ds = rd.at(ids[0], out) if ids and isinstance(s.output_expr, ast.Name) else []
+                if any(d.kind == "assign" and d.value is not None and "get_intermediate_symbol" in norm(d.value) and not any(
+                        isinstance(a, ast.Constant) and a.value is True for a in ast.walk(d.value)) for d in ds):
+                    hazard = (s, out, later[0])
+                    break
+    if hazard is not None:
+        s, out, later = hazard
+        # a re-definition of the result register under a test that it is the index
+        fresh = False
+        for st in ast.walk(fn):
+            if isinstance(st, ast.If):
+                t = st.test
+                same = isinstance(t, ast.Compare) and len(t.ops) == 1 and isinstance(t.ops[0], (ast.Is, ast.Eq)) and {norm(t.left), norm(t.comparators[0])} >= {out, index_name} \
+                    or isinstance(t, ast.Compare) and len(t.ops) == 1 and isinstance(t.ops[0], (ast.Is, ast.Eq)) and out in norm(t) and index_name in norm(t)
+                if same and any(isinstance(a, ast.Assign) and any(norm(x) == out for x in a.targets) and "get_intermediate_symbol" in norm(a.value)
+                                and any(isinstance(c_, ast.Constant) and c_.value is True for c_ in ast.walk(a.value)) for a in st.body):
+                    fresh = True
+        chk.judge("R01.i", f"generate_code:{qual}:the result register is not the index while the index is still read", fresh,
+                  f"{out} comes from get_intermediate_symbol(node), which is the target of an enclosing assignment; for 'i = [..][i]' that is the index itself, "
+                  f"'{norm(s.call)[:50]}' overwrites it and '{norm(later.call)[:50]}' then tests the selected element instead of the index", None, s.where())
     n = 0
     for s in sites:
         if s.opcodes is TOP or set(s.opcodes) != {"select"}:
